@@ -77,6 +77,23 @@ class Roles:
         return frozenset(out)
 
 
+def _is_pair_or_list_of_pairs(P: "Roles", a: ast.AST, nid: int, depth: int = 0) -> bool:
+    """a is [north, west], a list (comprehension) of such pairs, or None on the non-unique path."""
+    if isinstance(a, ast.ListComp):
+        return _is_pair_or_list_of_pairs(P, a.elt, nid, depth + 1)
+    if isinstance(a, (ast.List, ast.Tuple)) and len(a.elts) == 2:
+        return P.role(a.elts[0], nid) == {NORTH} and P.role(a.elts[1], nid) == {WEST}
+    if isinstance(a, ast.Name) and depth < 4:
+        ds = [x for x in P.du.reaching(nid, a.id) if x.value is not None]
+        def is_none(v):
+            return (isinstance(v, ast.Constant) and v.value is None) or \
+                (isinstance(v, ast.ListComp) and is_none(v.elt))
+        real = [x for x in ds if not is_none(x.value)]
+        return bool(real) and all(_is_pair_or_list_of_pairs(P, x.value, x.node, depth + 1)
+                                  for x in real)
+    return False
+
+
 def _fmt(r) -> str:
     return "/".join(sorted(r)) if r else "none"
 
@@ -136,42 +153,45 @@ def r1(prog: Program, chk: Check) -> None:
                                   "degeneracy maps", lc)
         if reps != 2:
             raise AnalysisError(f"R1: expected 2 representative selections in {sel_q}, found {reps}")
-        for st in walk_local(su.node):
-            if isinstance(st, ast.Assign) and isinstance(st.value, ast.List) \
-                    and len(st.value.elts) == 2 and (dotted(st.targets[0]) or "") in PAIR_NAMES:
-                nid = R.du.node_of(st.value)
-                ra, rb = R.role(st.value.elts[0], nid), R.role(st.value.elts[1], nid)
-                ok = ra == {NORTH} and rb == {WEST}
-                chk.add("R1", su, f"{norm(st.targets[0])} = [{_fmt(ra)}, {_fmt(rb)}]", ok,
-                        "" if ok else "the pair is not [north, west]", st)
+        # the pair handed to influence_matrix(deg_positions=...) - whatever the local is called
+        pair_sites = 0
+        scopes = [su] + [v for v in prog.all_nested(su) if not isinstance(v.node, ast.Lambda)]
+        for c in [x for sc in scopes for x in walk_local(sc.node)]:
+            if not (isinstance(c, ast.Call) and call_name(c) == "influence_matrix"):
+                continue
+            dp = next((k.value for k in c.keywords if k.arg == "deg_positions"), None)
+            if dp is None:
+                continue
+            nid = R.du.node_of(c)
+            cands = [dp]
+            if isinstance(dp, ast.Name) and nid is not None:
+                cands = [df.value for df in R.du.reaching(nid, dp.id) if df.value is not None]
+                cnodes = [df.node for df in R.du.reaching(nid, dp.id) if df.value is not None]
+            elif isinstance(dp, ast.Name):
+                # free variable of a closure: every assignment in the enclosing function
+                defs = [df for df in R.du.defs if df.name == dp.id and df.value is not None]
+                cands, cnodes = [df.value for df in defs], [df.node for df in defs]
+            else:
+                cnodes = [nid]
+            for v, vn in zip(cands, cnodes):
+                if isinstance(v, ast.Constant) and v.value is None:
+                    continue
+                pair_sites += 1
+                if isinstance(v, (ast.List, ast.Tuple)) and len(v.elts) == 2:
+                    ra, rb = R.role(v.elts[0], vn), R.role(v.elts[1], vn)
+                    ok = ra == {NORTH} and rb == {WEST}
+                    chk.add("R1", su, f"deg_positions = [{_fmt(ra)}, {_fmt(rb)}]", ok,
+                            "" if ok else "the pair is not [north, west]", v)
+                else:
+                    chk.add("R1", su, f"deg_positions = {norm(v)[:50]}", False,
+                            "not a [north, west] pair of representative arrays", v)
+        if pair_sites < 1:
+            raise AnalysisError(f"R1: no deg_positions pair reaches influence_matrix in {sel_q}")
         pu = prog.unit(prep_q)
         P = Roles(pu)
         chk.saw(pu, P.du.cfg)
-        for st in walk_local(pu.node):
-            if not isinstance(st, ast.Assign):
-                continue
-            t = dotted(st.targets[0]) or ""
-            nid = P.du.node_of(st.value)
-            # only the `unique` branch carries roles
-            ctx = [br for (tst, br) in branch_context(pu.node, st)
-                   if dotted(tst) in ("self._unique",)]
-            if ctx != [True]:
-                continue
-            if t.startswith("sum_north") or t.startswith("sum_west"):
-                want = {NORTH} if "north" in t else {WEST}
-                r = P.role(st.value, nid)
-                chk.add("R1", pu, f"{t} sized by {_fmt(r)}", r == want,
-                        "" if r == want else f"summing vector `{t}` has the length of the "
-                                             f"{_fmt(r)} class set", st)
-            if t.startswith("degeneracy_maps"):
-                v = st.value
-                pair = v.elt if isinstance(v, ast.ListComp) else v
-                if isinstance(pair, ast.List) and len(pair.elts) == 2:
-                    ra, rb = P.role(pair.elts[0], nid), P.role(pair.elts[1], nid)
-                    ok = ra == {NORTH} and rb == {WEST}
-                    chk.add("R1", pu, f"{t} = [{_fmt(ra)}, {_fmt(rb)}]", ok,
-                            "" if ok else "the pair is not [north, west]", st)
-        # binding to the back-end constructor
+        # binding to the back-end constructor: the parameter names carry the roles
+        n_ctor = 0
         for c in walk_local(pu.node):
             if isinstance(c, ast.Call) and call_name(c) in ("TempoBackend", "PtTempoBackend",
                                                             "MeanFieldTempoBackend"):
@@ -183,11 +203,24 @@ def r1(prog: Program, chk: Check) -> None:
                     bound[params[i]] = a
                 for k in c.keywords:
                     bound[k.arg] = k.value
+                nid = P.du.node_of(c)
                 for p, a in bound.items():
                     if p.startswith("sum_north") or p.startswith("sum_west"):
-                        ok = (dotted(a) or "").startswith("sum_north" if "north" in p else "sum_west")
-                        chk.add("R1", pu, f"{call_name(c)}({p}={norm(a)})", ok,
-                                "" if ok else "north/west summing vectors are handed over swapped", c)
+                        n_ctor += 1
+                        want = {NORTH} if "north" in p else {WEST}
+                        r = P.role(a, nid)
+                        chk.add("R1", pu, f"{call_name(c)}({p} sized by {_fmt(r)})", r == want,
+                                "" if r == want else
+                                f"the summing vector handed over as `{p}` has the length of the "
+                                f"{_fmt(r)} class set", c)
+                    if p.startswith("degeneracy_maps"):
+                        n_ctor += 1
+                        ok = _is_pair_or_list_of_pairs(P, a, nid)
+                        chk.add("R1", pu, f"{call_name(c)}({p} = [north, west] pair(s))", ok,
+                                "" if ok else "the pair is not [north, west]", c)
+        if n_ctor < 3:
+            raise AnalysisError(f"R1: back-end constructor of {prep_q} no longer receives the "
+                                f"summing vectors and degeneracy maps")
 
     # ---- influence_matrix
     im = prog.unit("tempo:influence_matrix")
@@ -209,8 +242,14 @@ def r1(prog: Program, chk: Check) -> None:
                 out.add("acomm")
         return out
     found = 0
+    # the influence under construction is the variable the function returns
+    ret_names = {r.value.id for r in walk_local(im.node) if isinstance(r, ast.Return)
+                 and isinstance(r.value, ast.Name)}
+    if len(ret_names) != 1:
+        raise AnalysisError("R1: influence_matrix no longer returns one local variable")
+    infl_name = ret_names.pop()
     for st in walk_local(im.node):
-        if not (isinstance(st, ast.Assign) and dotted(st.targets[0]) == "infl"):
+        if not (isinstance(st, ast.Assign) and dotted(st.targets[0]) == infl_name):
             continue
         ctx = [br for (t, br) in branch_context(im.node, st)
                if isinstance(t, ast.Compare) and dotted(t.left) == "deg_positions"]
@@ -242,7 +281,7 @@ def r1(prog: Program, chk: Check) -> None:
             r_axis1 = frozenset({"<same axis>"})
         # what do the axes of outer(A, B) depend on?
         outer_calls = []
-        for df in R.du.reaching(nid, "infl"):
+        for df in R.du.reaching(nid, infl_name):
             if df.value is not None:
                 outer_calls += [c for c in ast.walk(df.value) if isinstance(c, ast.Call)
                                 and (dotted(c.func) or "").split(".")[-1] == "outer"]
@@ -301,8 +340,21 @@ def r1(prog: Program, chk: Check) -> None:
                     f"{[_fmt(R.role(sl, nid)) for sl in chain]} vs sizes {[_fmt(s) for s in shape]}",
                     not bad, "" if not bad else "; ".join(bad), st)
             # the reduced dk=0 influence is indexed by NORTH
+            def from_influence(name, at, depth=0):
+                for df in R.du.reaching(at, name):
+                    if df.value is None:
+                        continue
+                    if any(isinstance(y, ast.Call) and dotted(y.func) == "self._influence"
+                           for y in ast.walk(df.value)):
+                        return True
+                    if depth < 4 and any(
+                            isinstance(y, ast.Name) and isinstance(y.ctx, ast.Load)
+                            and from_influence(y.id, df.node, depth + 1)
+                            for y in ast.walk(df.value)):
+                        return True
+                return False
             src = [x for x in ast.walk(st.value) if isinstance(x, ast.Subscript)
-                   and dotted(x.value) == "infl"]
+                   and isinstance(x.value, ast.Name) and from_influence(x.value.id, nid)]
             for x in src:
                 r = R.role(x.slice, nid)
                 chk.add("R1", u, f"reduced influence read at {_fmt(r)} class index", r == {NORTH},
